@@ -322,3 +322,66 @@ Proof.
   split. { repeat split; reflexivity. }
   repeat split; vm_compute; reflexivity.
 Qed.
+
+(* ---- brk_match of regex.c (translated: GenCFuncs.F_brk_match) is the model's ReVM.brk_match, coq/TrRegexBrk.v -----------
+   Memory holds the program's globals at their indices (globals_at: among them the table brk_classes, 22 pointer cells
+   into string-literal blocks -- shown equal to the generated GenConsts.brk_classes) and the NUL-free bracket text s in a
+   block b.  For EVERY model depth d, offset o <= |s|, character code c and flag word: if the model answers Ok r, the C text
+   (ranges, negation, [:class:] items via strncmp/strlen on the table and the recursive call on the class body, the
+   REG_ICASE folding of c and of both range ends, brk_len to step over a class item, uc_dec/uc_len of regex.c) returns
+   b2z r and leaves the memory unchanged; it never reads outside s and the table, never overflows an int, never runs out of
+   fuel (fuel >= |s| + 13 and >= cls_fuel = 13 + the longest class body; call depth d + 3). *)
+From NV Require CLiteTac TrRegexBrk.
+Theorem C11_tr_brk_match : forall d e m fuel flg, CLiteTac.globals_at m -> (-2147483648 <= flg <= 2147483647)%Z ->
+  TrRegexBrk.cls_fuel <= fuel ->
+  forall b (s : bytes) o (c : N) r, CLiteProps.str_at m b s -> nonul s -> o <= length s -> length s + 13 <= fuel ->
+  (Z.of_nat (length s) < 2147483647)%Z ->
+  ReVM.brk_match d (has flg REG_ICASE) (skipn o s) c = ReSyntax.Ok r ->
+  CLite.callf GenCFuncs.cprog fuel (S (S (S (d + e)))) GenCFuncs.F_brk_match
+    [CLite.VPtr b (Z.of_nat o); CLite.VInt (Z.of_N c); CLite.VInt flg] m = CLite.Ok (CLite.VInt (CLite.b2z r), m).
+Proof. exact TrRegexBrk.tr_brk_match. Qed.
+Print Assumptions C11_tr_brk_match.
+
+(* ... and the RA_BRK case of ratom_match.  The C text stores the advanced position BEFORE it asks brk_match, so a refused
+   character returns 1 with rs->s already moved (brk_advanced); re_rec discards or restores the state after a failed atom.
+   The state block is none of the global blocks and differs from the blocks of the atom and of its text. *)
+Theorem C11_tr_ratom_match_brk : forall m ba bs br bl rs (line sb : bytes) p flg e fuel,
+  nth_error m ba = Some [CLite.VInt 91; CLite.VPtr bs 0] -> CLiteProps.str_at m bs sb -> nonul sb -> sb <> [] ->
+  TrRegexAtom.rstate_at m br bl rs p flg -> CLiteProps.str_at m bl line -> CLiteProps.bytes_lt256 line -> p <= length line ->
+  CLiteTac.globals_at m -> length GenCFuncs.cglobals <= br -> br <> bs -> ba <> br ->
+  (-2147483648 <= flg <= 2147483647)%Z -> length line < fuel -> TrRegexBrk.cls_fuel <= fuel -> length sb + 13 <= fuel ->
+  (Z.of_nat (length sb) < 2147483647)%Z ->
+  CLite.callf GenCFuncs.cprog fuel (S (S (S (S (S (S e)))))) GenCFuncs.F_ratom_match [CLite.VPtr ba 0; CLite.VPtr br 0] m =
+  match ReVM.ratom_match flg line (ABrk sb) p with
+  | ReSyntax.Ok (Some p') => CLite.Ok (CLite.VInt 0, CLiteProps.upd m br (CLiteProps.upd rs 0 (CLite.VPtr bl (Z.of_nat p'))))
+  | ReSyntax.Ok None =>
+      CLite.Ok (CLite.VInt 1, if TrRegexBrk.brk_advanced flg line p
+                              then CLiteProps.upd m br (CLiteProps.upd rs 0 (CLite.VPtr bl (Z.of_nat (p + re_uclen_at line p)))) else m)
+  | _ => CLite.Err CLite.EShape
+  end.
+Proof. exact TrRegexBrk.tr_ratom_match_brk. Qed.
+Print Assumptions C11_tr_ratom_match_brk.
+
+(* non-vacuity, RUN: the globals followed by the bracket text  [^a-f[:digit:] e2  (unclosed, ending in a truncated lead
+   byte); brk_match(text + 1, c, flg): '5' is a digit -> 1 (negated set refuses), 'x' -> 0, 'B' with REG_ICASE -> 1 (b is in
+   a-f), the code 0x2000e2 of the truncated sequence itself -> 1 *)
+Definition C11_tr_brk : bytes := [91; 94; 97; 45; 102; 91; 58; 100; 105; 103; 105; 116; 58; 93; 226]%N.
+Definition C11_tr_bmem : CLite.mem := GenCFuncs.cglobals ++ [CLite.cstr_block (CLiteProps.zb C11_tr_brk)].
+Definition C11_tr_brun (c flg : Z) : option CLite.val :=
+  match CLite.callf GenCFuncs.cprog 60 8 GenCFuncs.F_brk_match
+          [CLite.VPtr (length GenCFuncs.cglobals) 1; CLite.VInt c; CLite.VInt flg] C11_tr_bmem with
+  | CLite.Ok (v, _) => Some v | CLite.Err _ => None end.
+Example C11_tr_brk_nonvacuous :
+  CLiteTac.globals_at C11_tr_bmem /\ CLiteProps.str_at C11_tr_bmem (length GenCFuncs.cglobals) C11_tr_brk /\ nonul C11_tr_brk /\
+  TrRegexBrk.cls_fuel <= 60 /\
+  C11_tr_brun 53 0 = Some (CLite.VInt 1) /\ ReVM.brk_match 2 false (tl C11_tr_brk) 53 = ReSyntax.Ok true /\
+  C11_tr_brun 120 0 = Some (CLite.VInt 0) /\ ReVM.brk_match 2 false (tl C11_tr_brk) 120 = ReSyntax.Ok false /\
+  C11_tr_brun 66 4 = Some (CLite.VInt 1) /\ ReVM.brk_match 2 true (tl C11_tr_brk) 66 = ReSyntax.Ok true /\
+  C11_tr_brun 2097378 0 = Some (CLite.VInt 1) /\ ReVM.brk_match 2 false (tl C11_tr_brk) 2097378 = ReSyntax.Ok true.
+Proof.
+  split. { intros g blk H. unfold C11_tr_bmem. rewrite nth_error_app1; [exact H|]. apply nth_error_Some. congruence. }
+  split. { unfold CLiteProps.str_at, C11_tr_bmem. rewrite nth_error_app2, PeanoNat.Nat.sub_diag by apply le_n. reflexivity. }
+  split. { repeat constructor. }
+  split. { vm_compute. repeat constructor. }
+  repeat split; vm_compute; reflexivity.
+Qed.
